@@ -151,6 +151,16 @@ theorem buffer_wire_roundtrip (col : String) (ops : List Op) (hw : ∀ o ∈ ops
   exact toRaw_toBuf_eq _ (Buf.putAll_inv _ _ (Buf.empty_inv col) hw)
     (Buf.putAll_cur _ _ (fun _ => rfl))
 
+/-- … and the buffer read back is the *writer's* state too (`cur`, the chunk being written, is rebuilt from the last
+    header — `none` for an empty buffer): writing on after `Buffer.ReadFrom` gives the buffer that writing on the
+    original would have given, whatever is written (driver op `loadfrom`). -/
+theorem write_after_readfrom (col : String) (ops more : List Op) (hw : ∀ o ∈ ops, o.WF)
+    (hfit : (Buf.toRaw ((Buf.empty col).putAll ops)).WF) (rest : Bytes) (e : Bool) :
+    ∃ raw, readRawBuf ⟨encBuf ((Buf.empty col).putAll ops) ++ rest, e⟩ = .ok (raw, ⟨rest, e⟩) ∧
+      (raw.toBuf).map (·.putAll more) = some (((Buf.empty col).putAll ops).putAll more) := by
+  obtain ⟨raw, h1, h2⟩ := buffer_wire_roundtrip col ops hw hfit rest e
+  exact ⟨raw, h1, by rw [h2]; rfl⟩
+
 /-- the size hypothesis `RawBuf.WF` follows from the invariant and four plain bounds -/
 theorem buffer_fits (b : Buf) (h : b.Inv) (hname : b.column.toUTF8.toList.length < 2 ^ 64)
     (hcount : b.secs.length < 2 ^ 64) (hdata : b.bytes.length < 2 ^ 32)
